@@ -19,6 +19,9 @@ pub mod c07;
 pub mod c08;
 pub mod c09;
 pub mod c12;
+pub mod c13;
+pub mod c14;
+pub mod c15;
 
 #[rustfmt::skip]
 pub mod gen_cells;
